@@ -196,7 +196,7 @@ func prepare(repo, verifRoot string, race bool) (bin string, treeHash string, er
 		os.RemoveAll(cacheDir)
 		return "", "", infra("build of the instrumented scratch copy failed (rewritten: %v):\n%s", rewritten, out.String())
 	}
-	pruneCache(filepath.Join(verifRoot, ".cache"), 8)
+	pruneCache(filepath.Join(verifRoot, ".cache"), 12)
 	return bin, treeHash, nil
 }
 
@@ -217,6 +217,9 @@ func pruneCache(dir string, keep int) {
 	}
 	sort.Slice(es, func(i, j int) bool { return es[i].mod.After(es[j].mod) })
 	for i := keep; i < len(es); i++ {
+		if time.Since(es[i].mod) < 3*time.Hour {
+			continue // possibly in use by a concurrent invocation
+		}
 		os.RemoveAll(filepath.Join(dir, es[i].name))
 	}
 }
